@@ -3,6 +3,9 @@ import RichModel.Lemmas.TextJoin
 import RichModel.Lemmas.TextRender
 import RichModel.Lemmas.TextHistory2
 import RichModel.Lemmas.TextSplitOld
+import RichModel.Lemmas.TextHistory3
+import RichModel.Lemmas.TextGuides
+import RichModel.Lemmas.TextFrag
 import RichModel.Gen.CellWidths
 /-!
 # C05 — Text editing operations keep characters and styles attached
@@ -24,6 +27,14 @@ afterwards).  No theorem bounds the length of the strings, the number of spans o
 `divide_view` is proved in `Lemmas/WrapDivide.lean`, which the word-wrap property C02 built on this model and
 which is imported read-only (as are two of its helper lemmas about one-character separators); it is restated
 here because it is an obligation of C05's statement.  Nothing in this file is partial any more.
+
+Deepening round 4 (last sections of the file): `split` read at string level (`split_str_view` over the executable
+`strSplit` of `Model/TextStr.lean`, with the two string laws `split_incl_concat` and `split_join_inverse`); refinement
+theorems for the operations that were only compared before — `pad_view`, `remove_suffix_view`, `add_view`,
+`append_tokens_view`, `rstrip_end_view`, `fit_view`, `detect_indentation_spec`, `with_indent_guides_view` (full
+strength: the list function `guideLines`); the history theorem over the complete operation set `OpAll`
+(`inv_step_full`, `inv_history_full`, `history_render_full`); and the `_text` fragment list made explicit
+(`Model/TextFrag.lean`: `frag_refines_step`, `frag_refines_history`, `plain_normalisation_unobservable`).
 -/
 namespace RichModel.C05
 open RichModel RichModel.Text
@@ -436,5 +447,209 @@ example :
     (Text.align Variant.repaired (fun _ => 1)
       (Text.new Variant.repaired ['a', 'b', 'c'] (0 : Nat) [⟨1, 3, 1⟩] none (some .ignore)) .right 1).spans = [⟨1, 3, 1⟩] := by
   rfl
+
+
+/-! ## deepening round 4: the operations that were "compared, no theorem", `split` at string level, and the history
+theorem over the complete operation set -/
+
+/-- **`split` is the string-level split of the styled string** (repaired code; EVERY non-empty separator, also one that
+overlaps itself; `include_separator` and `allow_blank` both ways).  `strSplit sep incl blank chars v` (`Model/TextStr`,
+executable, compared with `str.split` / `re.split` of the running Python on every run) cuts ANY list `v` where the
+separator occurs in its characters `chars`; the pieces' styled strings are `strSplit` of `view t` read through its own
+characters, their plain strings are `strSplit` of the plain string, every piece is consistent under the same base
+style. -/
+theorem split_str_view [BEq σ] (t : Text σ) (sep : List Char) (incl blank : Bool) (h : Inv t) (hsep : sep ≠ []) :
+    ∃ parts, Text.splitW false Variant.repaired t sep incl blank = .ok parts ∧
+      parts.map view = strSplit sep incl blank (t.view.map (·.1)) t.view ∧
+      parts.map (·.plain) = strSplit sep incl blank t.plain t.plain ∧
+      ∀ l ∈ parts, Inv l ∧ l.style = t.style :=
+  Text.split_str_view t sep incl blank h hsep
+
+/-- `split(sep, include_separator=True)` loses and moves nothing: the pieces' styled strings concatenate to the
+text's, whatever `allow_blank` -/
+theorem split_incl_concat [BEq σ] (t : Text σ) (sep : List Char) (blank : Bool) (h : Inv t) (hsep : sep ≠ []) :
+    ∃ parts, Text.splitW false Variant.repaired t sep true blank = .ok parts ∧ parts.flatMap view = t.view := by
+  obtain ⟨parts, h1, h2, _, _⟩ := Text.split_str_view t sep true blank h hsep
+  refine ⟨parts, h1, ?_⟩
+  rw [List.flatMap_def, h2]
+  exact strSplit_incl_flatten sep blank _ t.view hsep
+
+/-- `sep.join(text.split(sep, allow_blank=True))` is the text (as for `str.split`): what `split` removes are exactly
+the separators -/
+theorem split_join_inverse [BEq σ] (t : Text σ) (sep : List Char) (h : Inv t) (hsep : sep ≠ []) :
+    ∃ parts, Text.splitW false Variant.repaired t sep false true = .ok parts ∧
+      List.intercalate sep (parts.map (·.plain)) = t.plain := by
+  obtain ⟨parts, h1, _, h3, _⟩ := Text.split_str_view t sep false true h hsep
+  exact ⟨parts, h1, by rw [h3]; exact strSplit_intercalate sep t.plain hsep⟩
+
+example : strSplit ['a', 'a'] false true ['a', 'a', 'a', 'b', 'a', 'a'] ['a', 'a', 'a', 'b', 'a', 'a']
+    = [[], ['a', 'b'], []] := by decide
+
+example : strSplit ['a', 'a'] true false ['a', 'a', 'a', 'b', 'a', 'a'] [1, 2, 3, 4, 5, 6] = [[1, 2], [3, 4, 5, 6]] := by
+  decide
+
+/-- `pad(n, ch)`: `n` base-styled characters on either side, the text in between as it was -/
+theorem pad_view (t : Text σ) (n : Nat) (ch : Char) (h : Inv t) (hch : isStripCode ch = false) :
+    Inv (t.pad (n : Int) ch) ∧
+    (t.pad (n : Int) ch).view = List.replicate n (ch, [t.style]) ++ t.view ++ List.replicate n (ch, [t.style]) :=
+  ⟨inv_pad t n ch h hch, view_pad t n ch h hch⟩
+
+example : (Text.pad (Text.new Variant.repaired ['a', 'b'] (5 : Nat) [⟨1, 2, 1⟩]) 2 '-').view
+    = [('-', [5]), ('-', [5]), ('a', [5]), ('b', [5, 1]), ('-', [5]), ('-', [5])] := by rfl
+
+/-- `remove_suffix(s)`: when the string ends with `s` exactly those characters go, otherwise nothing changes -/
+theorem remove_suffix_view (t : Text σ) (suffix : List Char) (h : Inv t) :
+    Inv (t.removeSuffix Variant.repaired suffix) ∧
+    (t.removeSuffix Variant.repaired suffix).view =
+      (if suffix.isSuffixOf t.plain then t.view.take (t.plain.length - suffix.length) else t.view) :=
+  ⟨inv_removeSuffix t suffix h, view_removeSuffix t suffix⟩
+
+/-- `text + str` and `text + Text`: as `append` on a copy -/
+theorem add_view (t u : Text σ) (s : List Char) (h : Inv t) (hu : Inv u) :
+    (t.addStr Variant.repaired s).view = t.view ++ (stripControl s).map (fun c => (c, [t.style])) ∧
+    (t.addText Variant.repaired u).view = t.view ++ u.view.map (fun p => (p.1, t.style :: p.2)) :=
+  ⟨view_addStr t s h, view_addText t u h hu⟩
+
+/-- `append_tokens(tokens)` (tokens without strip-control characters: rich does not strip there): the old characters
+keep their styles, then every token's characters in order under the base style and the token's own style -/
+theorem append_tokens_view (tokens : List (List Char × Option σ)) (t : Text σ) (h : Inv t)
+    (hc : ∀ tok ∈ tokens, NoCtl tok.1) :
+    Inv (t.appendTokens tokens) ∧
+    (t.appendTokens tokens).view =
+      t.view ++ tokens.flatMap (fun tok => tok.1.map (fun c => (c, t.style :: tok.2.toList))) :=
+  ⟨inv_appendTokens tokens t h hc, view_appendTokens tokens t h hc⟩
+
+example : (Text.appendTokens (Text.new Variant.repaired ['a'] (5 : Nat) [⟨0, 1, 1⟩]) [(['x', 'y'], some 2), ([], some 3), (['z'], none)]).view
+    = [('a', [5, 1]), ('x', [5, 2]), ('y', [5, 2]), ('z', [5])] := by rfl
+
+/-- **`rstrip_end(size)` removes trailing whitespace only, and exactly `rstripEndAmount` of it** (repaired code,
+cell width compared with `size`): the result is the first `len - k` characters, each with the style it had, where
+`k = min(trailing whitespace, cell width - size)` when the text is wider than `size` and 0 otherwise; every removed
+character is whitespace. -/
+theorem rstrip_end_view (cw : Char → Nat) (t : Text σ) (size : Int) (h : Inv t) :
+    Inv (rstripEndW false cw Variant.repaired t size) ∧
+    (rstripEndW false cw Variant.repaired t size).view = t.view.take (t.plain.length - rstripEndAmount cw t.plain size) ∧
+    (∀ i, t.plain.length - rstripEndAmount cw t.plain size ≤ i → i < t.plain.length → pyIsSpace (t.plain.getD i ' ') = true) :=
+  ⟨inv_rstripEndW cw t size h, view_rstripEndW cw t size,
+   fun i h1 h2 => trailing_are_space t.plain i (by have := rstripEndAmount_le cw t.plain size; omega) h2⟩
+
+example : (rstripEndW false (fun _ => 1) Variant.repaired (Text.new Variant.repaired ['a', ' ', ' ', ' '] (5 : Nat) [⟨0, 4, 1⟩]) 2).view
+    = [('a', [5, 1]), (' ', [5, 1])] := by rfl
+
+/-- **`fit(w)`**: the lines of the text (string-level split at newlines, a blank last line dropped), each cut or
+padded with base-styled spaces to exactly `w` characters; characters kept keep their styles -/
+theorem fit_view [BEq σ] (t : Text σ) (w : Nat) (h : Inv t) :
+    ∃ lines, t.fit Variant.repaired (w : Int) = .ok lines ∧
+      lines.map view = (strSplit ['\n'] false false t.plain t.view).map (fitLine w t.style) ∧
+      (∀ l ∈ lines, Inv l ∧ l.style = t.style ∧ l.plain.length = w) :=
+  fit_spec t w h
+
+example : (Text.fit Variant.repaired (Text.new Variant.repaired ['a', 'b', 'c', '\n', 'd', '\n'] (5 : Nat) [⟨1, 5, 1⟩]) 2).map
+    (fun ls => ls.map view) = .ok [[('a', [5]), ('b', [5, 1])], [('d', [5, 1]), (' ', [5])]] := by rfl
+
+/-- **`detect_indentation()` is the gcd of the even space-indentations of the lines** (at least 1; 1 when there is
+none or all are 0), a function of the characters alone -/
+theorem detect_indentation_spec (t : Text σ) :
+    1 ≤ t.detectIndentation ∧
+    (∀ n ∈ evenIndents t.plain, t.detectIndentation ∣ n) ∧
+    ((∃ n ∈ evenIndents t.plain, n ≠ 0) → ∀ d, (∀ n ∈ evenIndents t.plain, d ∣ n) → d ∣ t.detectIndentation) ∧
+    ((∀ n ∈ evenIndents t.plain, n = 0) → t.detectIndentation = 1) :=
+  detectIndentation_spec t
+
+example : (Text.new Variant.repaired ("    a\n      b\n c".toList) (0 : Nat)).detectIndentation = 2 := by decide
+
+/-- **`with_indent_guides` at full strength.**  With `text` the tab-expanded copy (what `expand_tabs_view` describes), a
+guide string without strip-control characters and an indent size ≥ 1 (the argument, else `detect_indentation()`, which
+is ≥ 1 by `detect_indentation_spec`): the call succeeds, the result is consistent, and its styled string is `guideLines`
+of the lines of `text` (string-level split at newlines, a blank last line dropped) joined by newlines in the null style:
+a non-blank line with `k` leading spaces shows the guide every `size` columns then `k % size` spaces in place of its
+first characters, every position keeping the styles it had with the guide style on top of the new indentation
+(`restyle`); a blank line comes out as the indentation of the NEXT non-blank line in the bare guide style, trailing blank
+lines come out empty; everything sits under the null base style of the joining `Text("\n")`. -/
+theorem with_indent_guides_view [BEq σ] (null : σ) (t text : Text σ) (indentSize : Option Nat) (character : List Char)
+    (style : σ) (h : Inv t) (hch : NoCtl character) (hsize : 0 < indentSize.getD t.detectIndentation)
+    (hexp : t.expandTabs Variant.repaired none = .ok text) :
+    ∃ r, t.withIndentGuides Variant.repaired null indentSize character style = .ok r ∧ Inv r ∧
+      r.view = List.intercalate [('\n', [null, null])]
+        ((guideLines t.style (indentSize.getD t.detectIndentation)
+            (character ++ List.replicate (indentSize.getD t.detectIndentation - 1) ' ') style
+            (strSplit ['\n'] false false text.plain text.view) 0).map
+          (fun l => l.map (fun p => (p.1, null :: p.2)))) :=
+  withIndentGuides_view null t text indentSize character style h hch hsize hexp
+
+example : (Text.withIndentGuides Variant.repaired (0 : Nat)
+      (Text.new Variant.repaired "  a\n\n    b\n ".toList 5 [⟨0, 3, 1⟩]) none ['|'] 3).map view
+    = .ok [('|', [0, 5, 1, 3]), (' ', [0, 5, 1, 3]), ('a', [0, 5, 1]), ('\n', [0, 0]),
+           ('|', [0, 3]), (' ', [0, 3]), ('|', [0, 3]), (' ', [0, 3]), ('\n', [0, 0]),
+           ('|', [0, 5, 3]), (' ', [0, 5, 3]), ('|', [0, 5, 3]), (' ', [0, 5, 3]), ('b', [0, 5]), ('\n', [0, 0])] := by
+  rfl
+
+example : List.intercalate [('\n', [(0 : Nat), 0])]
+      ((guideLines (5 : Nat) 2 ['|', ' '] 3
+          (strSplit ['\n'] false false "  a\n\n    b\n ".toList (Text.new Variant.repaired "  a\n\n    b\n ".toList 5 [⟨0, 3, 1⟩]).view) 0).map
+        (fun l => l.map (fun p => (p.1, 0 :: p.2))))
+    = [('|', [0, 5, 1, 3]), (' ', [0, 5, 1, 3]), ('a', [0, 5, 1]), ('\n', [0, 0]),
+       ('|', [0, 3]), (' ', [0, 3]), ('|', [0, 3]), (' ', [0, 3]), ('\n', [0, 0]),
+       ('|', [0, 5, 3]), (' ', [0, 5, 3]), ('|', [0, 5, 3]), (' ', [0, 5, 3]), ('b', [0, 5]), ('\n', [0, 0])] := by
+  rfl
+
+/-! ## the `_text` fragment list (`Model/TextFrag.lean`): what `Model/Text.lean` abstracts to `plain` -/
+
+/-- **the fragment list refines the concatenation model**: for every operation that touches `_text` (`plain` getter
+and setter, `append(str)`, `append(Text)`, `append_text`, `append_tokens`, `right_crop`, `copy`), updating the
+fragment list as the code does and then joining the fragments is the abstract model's operation on the joined
+string -/
+theorem frag_refines_step (ft : FText σ) (op : FText.FOp σ) : (ft.step op).abs = FText.absStep ft.abs op :=
+  FText.abs_step ft op
+
+/-- …and so for every history of such operations, of any length -/
+theorem frag_refines_history (ops : List (FText.FOp σ)) (ft : FText σ) :
+    (ft.run ops).abs = ops.foldl FText.absStep ft.abs :=
+  FText.abs_run ops ft
+
+/-- **`plain`'s normalisation (join the fragments, reset `_text` to one fragment) is unobservable**: normalising
+first, or reading `plain` before a history, leads to the same abstract text as not doing so — for every history -/
+theorem plain_normalisation_unobservable (ops : List (FText.FOp σ)) (ft : FText σ) :
+    ft.normalise.abs = ft.abs ∧ (ft.normalise.run ops).abs = (ft.run ops).abs ∧
+    (ft.run (.getPlain :: ops)).abs = (ft.run ops).abs :=
+  ⟨FText.abs_normalise ft, (FText.normalise_unobservable ops ft).1, (FText.normalise_unobservable ops ft).2⟩
+
+example : ((FText.new Variant.repaired ['a', '\r'] (5 : Nat)).run
+      [.appendStr ['b', '\x08'] (some 1), .appendTokens [(['c'], none), ([], some 2)], .getPlain, .appendText (FText.ofFrags Variant.repaired [['d'], ['e']] 3)]).frags
+    = [['a', 'b', 'c'], ['d', 'e']] := by decide
+
+/-- every operation of the complete set — `OpX` plus `split` with any non-empty separator and both flags, `fit`, `pad`,
+`append_tokens`, `rstrip_end`, `with_indent_guides` — keeps the invariant -/
+theorem inv_step_full [BEq σ] (cw : Char → Nat) (null : σ) (t t' : Text σ) (op : OpAll σ) (h : Inv t) (hp : op.Pre t)
+    (hs : stepAll cw null t op = .ok t') : Inv t' :=
+  inv_stepAll cw null t t' op h hp hs
+
+/-- …and so does every history over the complete operation set, of any length, for any cell-width function -/
+theorem inv_history_full [BEq σ] (cw : Char → Nat) (null : σ) (ops : List (OpAll σ)) (t t' : Text σ) (h : Inv t)
+    (hp : HistPreAll cw null t ops) (hr : runAll cw null t ops = .ok t') : Inv t' :=
+  inv_runAll cw null ops t t' h hp hr
+
+/-- **after any history, what `render()` emits is the reference semantics**: for a text built by the constructor and
+edited by any sequence of operations of the complete set inside the domain, `render` raises nothing and its
+(character, style names) stream is `view` of the result -/
+theorem history_render_full [BEq σ] (cw : Char → Nat) (null : σ) (ops : List (OpAll σ)) (t t' : Text σ) (h : Inv t)
+    (hp : HistPreAll cw null t ops) (hr : runAll cw null t ops = .ok t') :
+    ∃ segs, t'.render [] = .ok segs ∧ segStream segs = t'.view ∧ t'.length = (t'.view.length : Int) :=
+  let hi := inv_runAll cw null ops t t' h hp hr
+  let ⟨segs, h1, h2⟩ := render_view_aux t' hi
+  ⟨segs, h1, h2, len_eq_view_length t' hi⟩
+
+example : HistPreAll (fun _ => 1) (0 : Nat) (Text.new Variant.repaired ['a', 'a', 'a', '\n', ' ', ' ', 'b', ' '] 5 [⟨0, 3, 1⟩])
+    [.splitAny ['a', 'a'] false true 1, .pad 1 '*', .appendTokens [(['x'], some 2)], .rstripEnd 3, .fit 4 0,
+     .indentGuides none ['|'] 3] := by
+  refine ⟨(by show (['a', 'a'] : List Char) ≠ []; simp), fun _ _ => ⟨(by show isStripCode '*' = false; decide), fun _ _ => ⟨?_, fun _ _ => ⟨trivial, fun _ _ => ⟨trivial, fun _ _ => ⟨?_, fun _ _ => trivial⟩⟩⟩⟩⟩⟩
+  · intro tok htok c hc
+    simp only [List.mem_singleton] at htok
+    subst htok
+    simp only [List.mem_singleton] at hc
+    subst hc; decide
+  · intro c hc
+    simp only [List.mem_singleton] at hc
+    subst hc; decide
 
 end RichModel.C05
